@@ -3,7 +3,7 @@
 set -u
 SEED="$1"; shift
 cd /verif
-git -C /repo apply "$SEED/patch.diff" || { echo "patch does not apply"; exit 3; }
+git -C /repo apply "$(realpath "$SEED")/patch.diff" || { echo "patch does not apply"; exit 3; }
 trap 'git -C /repo checkout -- . ' EXIT
 for c in "$@"; do
   ./check "$c" --tier "${TIER:-quick}" 2>&1 | grep -v KNOWN-FINDING | tail -3
